@@ -413,3 +413,49 @@ def generic_collect(m, st, fr, callee, args):
         cond = z3.And(*extra) if extra else z3.BoolVal(True)
         alts.append((cond, o.value if o.kind == "return" else ("panic", "collect: %s" % o.msg)))
     return ("fork", alts)
+
+
+@M.add(r"slice::<impl \[(f64|u64)\]>::iter_mut|slice::<impl \[(f64|u64)\]>::iter")
+def slice_iter(m, st, fr, callee, args):
+    """iterator over references to the elements of an array / slice reference"""
+    ref = args[0]
+    if not isinstance(ref, Ref):
+        raise Unsupported("iter on %r" % (ref,))
+    target = m.read(ref.cell, ref.path)
+    if isinstance(target, tuple) and target and target[0] == "slice":
+        base, lo, hi = target[1], target[2], target[3]
+        return ListIter([Ref(base.cell, base.path + (j,)) for j in range(lo, hi)])
+    return ListIter([Ref(ref.cell, ref.path + (j,)) for j in range(len(target.fields))])
+
+
+class EnumIter(ListIter):
+    pass
+
+
+@M.add(r"<core::slice::IterMut<'_, (f64|u64)> as Iterator>::enumerate|<core::slice::Iter<'_, (f64|u64)> as Iterator>::enumerate|<<T as IntoIterator>::IntoIter as Iterator>::enumerate")
+def iter_enumerate(m, st, fr, callee, args):
+    it = args[0]
+    if not isinstance(it, ListIter):
+        raise Unsupported("enumerate of %r" % (it,))
+    out = EnumIter([Agg([j, x], "tuple") for j, x in enumerate(it.items[it.pos:])])
+    return out
+
+
+@M.add(r"<Enumerate<.*> as IntoIterator>::into_iter")
+def enum_into_iter(m, st, fr, callee, args):
+    return args[0]
+
+
+@M.add(r"<Enumerate<.*> as Iterator>::next")
+def enum_next(m, st, fr, callee, args):
+    return generic_next(m, st, fr, callee, args)
+
+
+@M.add(r"<core::slice::Iter<'_, u64> as Iterator>::sum::<u64>")
+def iter_sum(m, st, fr, callee, args):
+    it = args[0]
+    total = 0
+    for x in it.items[it.pos:]:
+        v = deref(m, x)
+        total = total + v
+    return total
